@@ -64,7 +64,11 @@ Record sched := Sched {
   sc_phase : phase;
   sc_entry : list name;                 (* stage goroutines parked at the entry of Run *)
   sc_running : list name;               (* Run in progress (task started, not finished) *)
-  sc_lasterr : option err }.
+  sc_lasterr : option err;
+  sc_ending : list (name * option err * bool) }.
+                                        (* stage goroutines whose Run has returned (with this result) and that are parked
+                                           before a stage-change notification; the flag: the error of an allow_failure
+                                           stage has been notified, "done" is next *)
 
 Record job := Job {
   j_pipe : name;
@@ -199,7 +203,7 @@ Definition graph_ok (j : job) : bool :=
 
 Definition init_sched (j : job) : sched :=
   let st := map (fun t => (jt_name t, Waiting)) (j_tasks j) in
-  Sched st false false (match st with [] => PExited | _ => PTop end) [] [] None.
+  Sched st false false (match st with [] => PExited | _ => PTop end) [] [] None [].
 
 (** startJob without the nested wait-list processing; the bool says whether the graph could not be built *)
 Definition try_start (s : state) (id : nat) : state * bool :=
@@ -264,6 +268,7 @@ Inductive event :=
   | EvVisit (id : nat) (n : name)
   | EvRunBegin (id : nat) (n : name)
   | EvRunEnd (id : nat) (n : name) (o : outcome)
+  | EvNotify (id : nat) (n : name)
   | EvCancelDeliver (id : nat)
   | EvSchedReturn (id : nat)
   | EvSave
@@ -434,9 +439,9 @@ Definition stage_status (sc : sched) (n : name) : option status :=
   snd <$> find (fun x => Nat.eqb (fst x) n) (sc_stages sc).
 Definition set_stage (sc : sched) (n : name) (st : status) : sched :=
   Sched (map (fun x => if Nat.eqb (fst x) n then (fst x, st) else x) (sc_stages sc)) (sc_cancelled sc) (sc_ctx sc)
-        (sc_phase sc) (sc_entry sc) (sc_running sc) (sc_lasterr sc).
+        (sc_phase sc) (sc_entry sc) (sc_running sc) (sc_lasterr sc) (sc_ending sc).
 Definition set_phase (sc : sched) (ph : phase) : sched :=
-  Sched (sc_stages sc) (sc_cancelled sc) (sc_ctx sc) ph (sc_entry sc) (sc_running sc) (sc_lasterr sc).
+  Sched (sc_stages sc) (sc_cancelled sc) (sc_ctx sc) ph (sc_entry sc) (sc_running sc) (sc_lasterr sc) (sc_ending sc).
 
 (** isDone *)
 Definition is_done (sc : sched) : bool :=
@@ -484,7 +489,7 @@ Definition do_visit (s : state) (id : nat) (n : name) : option state :=
                 if ready then
                   let sc1 := set_stage sc n Running in
                   let sc1 := Sched (sc_stages sc1) (sc_cancelled sc1) (sc_ctx sc1) (sc_phase sc1) (sc_entry sc1 ++ [n])
-                                   (sc_running sc1) (sc_lasterr sc1) in
+                                   (sc_running sc1) (sc_lasterr sc1) (sc_ending sc1) in
                   (handle_stage_change s id n Running, sc1)
                 else if cancel then (s, set_stage sc n Canceled) else (s, sc)
             | _ => (s, sc)
@@ -498,7 +503,7 @@ Definition do_visit (s : state) (id : nat) (n : name) : option state :=
     | _ => None
     end).
 
-(** the epilogue of the stage goroutine after Run returned [r] *)
+(** the stage goroutine after Run returned [r]: the stage status is stored and the goroutine is about to notify it *)
 Definition stage_end (s : state) (id : nat) (n : name) (r : option err) : state :=
   match get_job s id with
   | None => s
@@ -506,23 +511,35 @@ Definition stage_end (s : state) (id : nat) (n : name) (r : option err) : state 
       match j_sched j with
       | None => s
       | Some sc =>
-          let allow := match find_task j n with Some t => td_allow (jt_def t) | None => false end in
-          let gone (sc : sched) := Sched (sc_stages sc) (sc_cancelled sc) (sc_ctx sc) (sc_phase sc)
-                                         (remove_name n (sc_entry sc)) (remove_name n (sc_running sc)) (sc_lasterr sc) in
-          match r with
-          | Some e =>
-              let s1 := handle_stage_change (put_sched s id (set_stage sc n Error)) id n Error in
-              if allow then
-                handle_stage_change (put_sched s1 id (gone (set_stage sc n Done))) id n Done
-              else
-                let sc' := gone (set_stage sc n Error) in
-                put_sched s1 id (Sched (sc_stages sc') (sc_cancelled sc') (sc_ctx sc') (sc_phase sc') (sc_entry sc')
-                                       (sc_running sc') (Some e))
-          | None =>
-              handle_stage_change (put_sched s id (gone (set_stage sc n Done))) id n Done
-          end
+          let sc1 := set_stage sc n (match r with Some _ => Error | None => Done end) in
+          put_sched s id (Sched (sc_stages sc1) (sc_cancelled sc1) (sc_ctx sc1) (sc_phase sc1) (remove_name n (sc_entry sc1))
+                                (remove_name n (sc_running sc1)) (sc_lasterr sc1) (sc_ending sc1 ++ [(n, r, false)]))
       end
   end.
+
+Definition ending_of (sc : sched) (n : name) : option (option err * bool) :=
+  (fun x : name * option err * bool => (x.1.2, x.2)) <$> find (fun x : name * option err * bool => Nat.eqb x.1.1 n) (sc_ending sc).
+Definition drop_ending (sc : sched) (n : name) (next : list (name * option err * bool)) (le : option err) : sched :=
+  Sched (sc_stages sc) (sc_cancelled sc) (sc_ctx sc) (sc_phase sc) (sc_entry sc) (sc_running sc) le
+        (List.filter (fun x : name * option err * bool => negb (Nat.eqb x.1.1 n)) (sc_ending sc) ++ next).
+
+(** a parked stage goroutine delivers its stage-change notification (HandleStageChange) and goes on: an errored
+    allow_failure stage becomes "done" and is notified once more; otherwise the goroutine ends (wg.Done) *)
+Definition do_notify (s : state) (id : nat) (n : name) : option state :=
+  with_sched s id (fun j sc =>
+    match ending_of sc n with
+    | None => None
+    | Some (r, second) =>
+        let allow := match find_task j n with Some t => td_allow (jt_def t) | None => false end in
+        match r, second with
+        | Some e, false =>
+            let s1 := handle_stage_change s id n Error in
+            if allow then Some (put_sched s1 id (drop_ending (set_stage sc n Done) n [(n, r, true)] (sc_lasterr sc)))
+            else Some (put_sched s1 id (drop_ending sc n [] (Some e)))
+        | _, _ =>
+            Some (handle_stage_change (put_sched s id (drop_ending sc n [] (sc_lasterr sc))) id n Done)
+        end
+    end).
 
 Definition add_log_dir (s : state) (id : nat) : state :=
   State (st_defs s) (st_jobs s) (st_wait s) (st_shut s) (st_now s) (st_req s) (st_ghost s) (st_store s)
@@ -543,7 +560,7 @@ Definition do_run_begin (s : state) (id : nat) (n : name) : option state :=
           Some (stage_end (log (log s (ORunBegan id n)) (ORunEnded id n true)) id n None)
         else
           let sc1 := Sched (sc_stages sc) (sc_cancelled sc) (sc_ctx sc) (sc_phase sc) (remove_name n (sc_entry sc))
-                           (sc_running sc ++ [n]) (sc_lasterr sc) in
+                           (sc_running sc ++ [n]) (sc_lasterr sc) (sc_ending sc) in
           let s1 := put_sched (log s (ORunBegan id n)) id sc1 in
           Some (handle_task_change s1 id n (TNote (Some (st_now s)) None (-1) false None))
     else None).
@@ -590,7 +607,7 @@ Definition do_cancel_deliver (s : state) (id : nat) : option state :=
           match j_sched j with
           | None => Some s1                 (* the job has completed meanwhile: nothing left to cancel *)
           | Some sc =>
-              Some (log (put_sched s1 id (Sched (sc_stages sc) true true (sc_phase sc) (sc_entry sc) (sc_running sc) (sc_lasterr sc)))
+              Some (log (put_sched s1 id (Sched (sc_stages sc) true true (sc_phase sc) (sc_entry sc) (sc_running sc) (sc_lasterr sc) (sc_ending sc)))
                         (OTold id))
           end
       end
@@ -604,14 +621,14 @@ Definition complete (now : Z) (e : option err) (j : job) : job :=
 
 Definition do_sched_return (s : state) (id : nat) : option state :=
   with_sched s id (fun j sc =>
-    match sc_phase sc, sc_entry sc, sc_running sc with
-    | PExited, [], [] =>
+    match sc_phase sc, sc_entry sc, sc_running sc, sc_ending sc with
+    | PExited, [], [], [] =>
         let s1 := upd_job s id (complete (st_now s) (sc_lasterr sc)) in
         if j_removed j then Some s1        (* JobCompleted does not find the job: returns early *)
         else
           let canceled := j_canceled j || bool_decide (sc_lasterr sc = Some ECanceled) || j_cancel_req j in
           Some (request_persist (dequeue (log s1 (OFinished id canceled (sc_lasterr sc))) (j_pipe j)))
-    | _, _, _ => None
+    | _, _, _, _ => None
     end).
 
 (** ** Persistence: SaveToStore (retention), restart from the store, shutdown *)
@@ -760,6 +777,7 @@ Definition step (s0 : state) (e : event) : option (state * result) :=
   | EvVisit id n => (fun s' => (s', RNone)) <$> do_visit s id n
   | EvRunBegin id n => (fun s' => (s', RNone)) <$> do_run_begin s id n
   | EvRunEnd id n o => (fun s' => (s', RNone)) <$> do_run_end s id n o
+  | EvNotify id n => (fun s' => (s', RNone)) <$> do_notify s id n
   | EvCancelDeliver id => (fun s' => (s', RNone)) <$> do_cancel_deliver s id
   | EvSchedReturn id => (fun s' => (s', RNone)) <$> do_sched_return s id
   | EvSave => Some (do_save s, RNone)
